@@ -70,6 +70,7 @@ type Node struct {
 	Typedefs   []*Typedef `json:"typedefs,omitempty"`
 	Groupings  []*Grouping `json:"groupings,omitempty"`
 	Raw        []string  `json:"raw,omitempty"` // extra raw statements
+	DefMod     string    `json:"defmod,omitempty"` // set by Inline: module in whose scope the type / feature references resolve
 }
 
 type Typedef struct {
